@@ -121,6 +121,32 @@ def process(ctx: Ctx, cases: list[dict]) -> None:
             ctx.case(c, r != c["s"], ("unq",))
             if m is not None and m != r:
                 ctx.disagree("remove_quotes_from_string", c, m, r)
+        elif k == "fmtsub":
+            import enum
+            import numpy as np
+            from common import dec
+            v = dec(c["v"])
+            F = NF if c["fl"] == "native" else FF
+            ctx.case(c, True, ("fmtsub",))
+            subs = []
+            if isinstance(v, float):
+                with np.errstate(all="ignore"):
+                    f32 = np.float32(v)
+                subs = [np.float64(v), f32 if float(f32) == v else np.float64(v), type("MyFloat", (float,), {})(v)]
+            elif isinstance(v, int) and not isinstance(v, bool):
+                subs = [type("MyInt", (int,), {})(v)] + ([enum.IntEnum("E", {"A": v}).A] if abs(v) < 2**31 else [])
+            try:
+                plain = F.format_value(v)
+                for sv in subs:
+                    t = F.format_value(sv)
+                    if isinstance(sv, float) and float(sv) != v:
+                        continue
+                    if t != plain and not (isinstance(sv, np.floating) and float(t) == float(plain)):
+                        ctx.violation("an instance of a subclass of int / float is not spelled like the number it is", c, {"type": type(sv).__name__, "text": t}, plain)
+                    elif not same(P.parse_value(t), v):
+                        ctx.violation("a formatted scalar is not classified back to the value it came from", c, {"type": type(sv).__name__, "text": t}, c["v"])
+            except Exception as e:  # noqa: BLE001
+                ctx.violation("format_value raises on an instance of a subclass of int / float", c, repr(e), "text")
         elif k == "fmtlist":
             # the writer's spelling of scalars that stand next to each other in one list (equal-valued numbers of different
             # type, repeated values): each item is spelled as format_value spells it alone, and reads back typed
@@ -272,6 +298,8 @@ def run(ctx: Ctx) -> None:
                 continue
             cases.append({"kind": "fmt", "fl": fl, "v": enc(v)})
     nums = [v for v in vals if isinstance(v, (int, float)) and not isinstance(v, bool) and v == v and abs(v) != float("inf")]
+    for v in rng.sample(nums, min(len(nums), ctx.n(150, 2000))) + [2.5, 1.0, -0.0, 1e16, 1e-7, 3, -7, 0, 10**20]:
+        cases.append({"kind": "fmtsub", "fl": rng.choice(["native", "foam"]), "v": enc(v)})
     for _ in range(ctx.n(150, 3000)):
         xs = [rng.choice(nums + [0, 1, 2, -1, 10**16, True, False, None]) for _ in range(rng.randint(2, 6))]
         for x in list(xs):
